@@ -22,34 +22,37 @@ const modPath = "github.com/resgateio/resgate"
 // Prog is the loaded, type-checked program in SSA form plus the indexes the
 // rules work on. Everything is rebuilt from the working tree on every run.
 type Prog struct {
-	roleMemo      map[string]*ssa.Function
-	globalSet     map[*ssa.Global]int      // 1: only ever set to allocations, 2: anything else
-	addrArgs      map[*types.Var][]addrArg // field -> call sites handing the field's address to a helper that derefs it
-	esStates      map[*ssa.Function]map[ssa.Instruction]int
-	implDepth     int                                  // recursion depth of helperImplies
-	boundMakers   map[*ssa.Function][]*ssa.MakeClosure // bound-method wrapper -> the places that make the method value
-	fieldSeen     map[string]string                    // anchor -> type, recorded for `resverif anchors`
-	Dir           string
-	Fset          *token.FileSet
-	Pkgs          []*packages.Package
-	SSA           *ssa.Program
-	Repo          []*ssa.Function          // every repository function incl. closures, sorted by name
-	ByNm          map[string]*ssa.Function // short name -> function
-	CG            *callgraph.Graph
-	Typs          map[string]*types.Package          // short pkg name ("server", "rescache", ...) -> package
-	viewDepth     int
-	parent        map[*ssa.Function]*ssa.MakeClosure // closure fn -> its (unique) MakeClosure
-	stores        map[*types.Var][]*ssa.Store        // field -> stores through FieldAddr
-	loads         map[*types.Var][]ssa.Instruction   // field -> loads (UnOp on FieldAddr, Field)
-	faddrs        map[*types.Var][]*ssa.FieldAddr
-	nAllFuncs     int
-	combs         map[*types.Func]map[int]Comb
-	combMissing   []string
-	mayWrite      map[*ssa.Function]map[*types.Var]bool
-	initOnly      map[*types.Var]bool
-	roleFieldBusy map[string]bool
-	ctxCache      *ctxInfo
-	fuzzy         []string // anchors resolved to a renamed object
+	roleMemo       map[string]*ssa.Function
+	hbDone         bool
+	hbField        *types.Var
+	hbSet, hbClear *ssa.Function
+	globalSet      map[*ssa.Global]int      // 1: only ever set to allocations, 2: anything else
+	addrArgs       map[*types.Var][]addrArg // field -> call sites handing the field's address to a helper that derefs it
+	esStates       map[*ssa.Function]map[ssa.Instruction]int
+	implDepth      int                                  // recursion depth of helperImplies
+	boundMakers    map[*ssa.Function][]*ssa.MakeClosure // bound-method wrapper -> the places that make the method value
+	fieldSeen      map[string]string                    // anchor -> type, recorded for `resverif anchors`
+	Dir            string
+	Fset           *token.FileSet
+	Pkgs           []*packages.Package
+	SSA            *ssa.Program
+	Repo           []*ssa.Function          // every repository function incl. closures, sorted by name
+	ByNm           map[string]*ssa.Function // short name -> function
+	CG             *callgraph.Graph
+	Typs           map[string]*types.Package // short pkg name ("server", "rescache", ...) -> package
+	viewDepth      int
+	parent         map[*ssa.Function]*ssa.MakeClosure // closure fn -> its (unique) MakeClosure
+	stores         map[*types.Var][]*ssa.Store        // field -> stores through FieldAddr
+	loads          map[*types.Var][]ssa.Instruction   // field -> loads (UnOp on FieldAddr, Field)
+	faddrs         map[*types.Var][]*ssa.FieldAddr
+	nAllFuncs      int
+	combs          map[*types.Func]map[int]Comb
+	combMissing    []string
+	mayWrite       map[*ssa.Function]map[*types.Var]bool
+	initOnly       map[*types.Var]bool
+	roleFieldBusy  map[string]bool
+	ctxCache       *ctxInfo
+	fuzzy          []string // anchors resolved to a renamed object
 }
 
 // addrArg: a call that passes &x.f to a repository function which loads or
@@ -897,6 +900,14 @@ func (p *Prog) Method(q string) *types.Func {
 	if f, ok := obj.(*types.Func); ok {
 		return f
 	}
+	// an anchor that can be found by the role it plays is looked for that way before a similar name is accepted
+	// (unqueueEvents -> releaseEvents must not resolve to Event)
+	if r, ok := roleMethods[q]; ok {
+		if m := r(p, n); m != nil {
+			p.fuzzy = append(p.fuzzy, q+" -> "+m.Name()+" (by role)")
+			return m
+		}
+	}
 	// renamed method: a unique method of the same type with a similar name
 	var ms []*types.Func
 	var names []string
@@ -1234,4 +1245,106 @@ func init() {
 }
 
 // roleFnNames: the anchors that have a role-based resolver (kept apart from roleFns to avoid an initialisation cycle).
-var roleFnNames = map[string]bool{"(*nats.Client).close": true, "(*server.wsConn).outputWorker": true, "(*rescache.Cache).mqUnsubscribe": true, "(*rescache.ResourceSubscription).unregister": true}
+var roleFnNames = map[string]bool{"(*server.Subscription).queueEvents": true, "(*server.Subscription).unqueueEvents": true, "(*nats.Client).close": true, "(*server.wsConn).outputWorker": true, "(*rescache.Cache).mqUnsubscribe": true, "(*rescache.ResourceSubscription).unregister": true}
+
+// holdBackRoles: the hold-back reasons of a subscription, found by what is done with them when the names are gone:
+// the one field of Subscription that one method ORs its parameter into and another method masks its parameter out of,
+// and those two methods.
+func (p *Prog) holdBackRoles() (*types.Var, *ssa.Function, *ssa.Function) {
+	if p.hbDone {
+		return p.hbField, p.hbSet, p.hbClear
+	}
+	p.hbDone = true
+	subT := p.Named("server.Subscription")
+	if subT == nil {
+		return nil, nil, nil
+	}
+	type cand struct{ set, clear map[*ssa.Function]bool }
+	cs := map[*types.Var]*cand{}
+	isParamMask := func(fn *ssa.Function, v ssa.Value) bool {
+		v = stripConv(v)
+		if u, ok := v.(*ssa.UnOp); ok && u.Op == token.XOR {
+			v = stripConv(u.X)
+		}
+		prm, ok := v.(*ssa.Parameter)
+		return ok && len(fn.Params) > 1 && prm != fn.Params[0]
+	}
+	for _, fn := range p.Repo {
+		if fn.Parent() != nil || fn.Signature.Recv() == nil || len(fn.Params) != 2 {
+			continue
+		}
+		rt := fn.Signature.Recv().Type()
+		if pt, ok := rt.(*types.Pointer); ok {
+			rt = pt.Elem()
+		}
+		if !types.Identical(rt, subT) {
+			continue
+		}
+		for _, b := range fn.Blocks {
+			for _, in := range b.Instrs {
+				st, ok := in.(*ssa.Store)
+				if !ok {
+					continue
+				}
+				fa, ok := st.Addr.(*ssa.FieldAddr)
+				if !ok || fa.X != ssa.Value(fn.Params[0]) {
+					continue
+				}
+				bo, ok := st.Val.(*ssa.BinOp)
+				if !ok {
+					continue
+				}
+				f := fieldOfAddr(fa)
+				if cs[f] == nil {
+					cs[f] = &cand{map[*ssa.Function]bool{}, map[*ssa.Function]bool{}}
+				}
+				switch bo.Op {
+				case token.OR:
+					if isParamMask(fn, bo.X) || isParamMask(fn, bo.Y) {
+						cs[f].set[fn] = true
+					}
+				case token.AND, token.AND_NOT:
+					if isParamMask(fn, bo.X) || isParamMask(fn, bo.Y) {
+						cs[f].clear[fn] = true
+					}
+				}
+			}
+		}
+	}
+	for f, c := range cs {
+		if len(c.set) == 1 && len(c.clear) == 1 {
+			if p.hbField != nil {
+				p.hbField, p.hbSet, p.hbClear = nil, nil, nil
+				return nil, nil, nil // ambiguous
+			}
+			p.hbField = f
+			for g := range c.set {
+				p.hbSet = g
+			}
+			for g := range c.clear {
+				p.hbClear = g
+			}
+		}
+	}
+	return p.hbField, p.hbSet, p.hbClear
+}
+
+func init() {
+	roleFns["(*server.Subscription).queueEvents"] = func(p *Prog) *ssa.Function { _, s, _ := p.holdBackRoles(); return s }
+	roleFns["(*server.Subscription).unqueueEvents"] = func(p *Prog) *ssa.Function { _, _, c := p.holdBackRoles(); return c }
+	roleFields["server.Subscription.queueFlag"] = func(p *Prog, st *types.Struct) *types.Var { f, _, _ := p.holdBackRoles(); return f }
+	roleMethods["server.Subscription.queueEvents"] = func(p *Prog, n *types.Named) *types.Func {
+		if _, s, _ := p.holdBackRoles(); s != nil {
+			m, _ := s.Object().(*types.Func)
+			return m
+		}
+		return nil
+	}
+	roleMethods["server.Subscription.unqueueEvents"] = func(p *Prog, n *types.Named) *types.Func {
+		if _, _, c := p.holdBackRoles(); c != nil {
+			m, _ := c.Object().(*types.Func)
+			return m
+		}
+		return nil
+	}
+}
